@@ -155,7 +155,7 @@ class Ctx:
                 self.pc.append(c)
                 self.solver.add(c)
             return val
-        if self.prefer_true and self._site_matches():
+        if self.prefer_true and self._site_matches() and (not PREFER_TRUE_NONLINEAR_ONLY or _nonlinear(cond)):
             # a designated site (e.g. the -999 floor of the dBi table): do not fork; take the True
             # side as a recorded ASSUMPTION unless it is infeasible
             if self.fork_policy == 'assume':
@@ -199,7 +199,26 @@ class Ctx:
 
 _ctx = None
 DEBUG_FORKS = False
+PREFER_TRUE_NONLINEAR_ONLY = False     # prefer_true sites: only conditions with products of variables are assumed, linear ones still fork
 CIRCLE_MODE = 'fresh'      # 'uf': cos/sin of a symbolic angle are uninterpreted functions of the angle term
+
+
+def _nonlinear(t):
+    stack = [t]
+    seen = set()
+    while stack:
+        x = stack.pop()
+        if x.get_id() in seen:
+            continue
+        seen.add(x.get_id())
+        if z3.is_app(x):
+            k = x.decl().kind()
+            if k == z3.Z3_OP_POWER:
+                return True
+            if k == z3.Z3_OP_MUL and sum(1 for c in x.children() if not (z3.is_rational_value(c) or z3.is_int_value(c))) >= 2:
+                return True
+            stack.extend(x.children())
+    return False
 
 
 def _ids(c, *terms):
@@ -648,7 +667,7 @@ class SR(_Num):
         b = self._coerce(o)
         if b is None:
             if isinstance(o, np.ndarray):
-                return _broadcast(lambda x, y: rel_apply(rel, x, y), o, self, False)
+                return _bool_array(_broadcast(lambda x, y: rel_apply(rel, x, y), o, self, False))
             return NotImplemented
         l = _mul(self.n, b.den)
         r = _mul(b.n, self.den)
@@ -748,6 +767,16 @@ class SR(_Num):
 
 def rel_apply(rel, a, b):
     return rel(a, b)
+
+
+def _bool_array(a):
+    """comparison of a symbolic scalar with an array: numpy semantics for object arrays is a real bool array
+    (each element decided through bool(), i.e. a fork per undecided element)"""
+    out = np.empty(a.shape, dtype=bool)
+    fi, fo = a.reshape(-1), out.reshape(-1)
+    for i in range(fi.shape[0]):
+        fo[i] = bool(fi[i])
+    return out
 
 
 # --------------------------------------------------------------------------
